@@ -155,6 +155,25 @@ Definition parse_material (toks : list string) : res (string * option string) :=
       end
   end.
 
+(* parse_one_cell_worker, material side: the pair of the (base) cell card, then
+   the MAT= / RHO= keywords of LIKE n BUT override it (the density keyword is
+   normalised, the material keyword is taken as written; a void override keeps
+   the base density) *)
+Definition cell_material (toks : list string) (kmat krho : option string)
+  : res (string * option string) :=
+  match parse_material toks with
+  | Err e => Err e
+  | Ok (m, d) =>
+      let m' := match kmat with Some x => x | None => m end in
+      match krho with
+      | None => Ok (m', d)
+      | Some r => match normalize_float r with
+                  | Ok nr => Ok (m', Some nr)
+                  | Err e => Err e
+                  end
+      end
+  end.
+
 (* ------------------------------------------------------------------------ *)
 (* cells, as far as material assignment is concerned                         *)
 (* ------------------------------------------------------------------------ *)
